@@ -340,6 +340,13 @@ func c12Run(c *Ctx) {
 			mp.Graph.Input = append(mp.Graph.Input, &onnx.ValueInfoProto{Name: tp.Name, Type: &onnx.TypeProto{Value: &onnx.TypeProto_TensorType{TensorType: &onnx.TypeProto_Tensor{ElemType: tp.DataType, Shape: sh}}}})
 			c.Count("models-whose-default-is-declared-under-another-shape", 1)
 		}
+		if c.Idx%10 == 6 && exp.Kind == MustError {
+			// an undecodable weight that a later, well-formed initializer of the same name would
+			// replace is still an undecodable weight of the model
+			twin := mon.TensorProto(tp.Name, c.R.Tensor(ref.F32, []int{2}, gen.FillSmall, 3), c.R.Bool())
+			mp.Graph.Initializer = []*onnx.TensorProto{tp, twin}
+			c.Count("models-with-a-later-initializer-of-the-same-name", 1)
+		}
 		before := proto.Clone(mp)
 		load := runProtoModel
 		path := "initializer+Run"
@@ -401,6 +408,38 @@ func c12Run(c *Ctx) {
 				sig = "decode:UNDEFINED-data_type-loaded-from-the-populated-typed-field"
 			}
 			c.Violation(sig, "[%s] %s | edited to: type=%d dims=%v raw=%d mutation=%q | before: %s | expectation %s %s", path, trunc(v.Detail, 400), tp.DataType, tp.Dims, len(tp.RawData), pc2.mutation, c.caseStr, exp2.Kind, exp2.Why)
+		}
+	}
+	// (e) the message marked as stored externally, its inline payload removed: there are no
+	// values to decode, so a shape that needs elements cannot be loaded (least of all as zeros)
+	if c.Idx%16 == 14 && len(tp.Dims) > 0 {
+		need := int64(1)
+		for _, d := range tp.Dims {
+			need *= d
+		}
+		if _, supported := ref.FromOnnxCode(tp.DataType); supported && need > 0 && need < 1<<20 {
+			ext := &onnx.TensorProto{Name: "w", Dims: append([]int64{}, tp.Dims...), DataType: tp.DataType, DataLocation: onnx.TensorProto_EXTERNAL,
+				ExternalData: []*onnx.StringStringEntryProto{{Key: "location", Value: "weights.bin"}}}
+			o := mon.Capture(nil, func() ([]tensor.Tensor, error) {
+				t, err := onnx.TensorFromProto(ext)
+				if err != nil {
+					return nil, err
+				}
+				return []tensor.Tensor{t}, nil
+			})
+			g := &mon.Graph{Outputs: []mon.GInput{{Name: "w", NoType: true}}}
+			mp := g.Proto()
+			mp.Graph.Initializer = []*onnx.TensorProto{ext}
+			om := runProtoModel(mp, []string{"w"})
+			c.Eval(2)
+			c.Count("external-data-messages-without-inline-payload", 1)
+			for _, oo := range []mon.Outcome{o, om} {
+				if oo.Kind == mon.Panic {
+					c.Violation("decode:panic", "[external data, no inline payload] %s | dims %v type %d", trunc(oo.Describe(), 300), tp.Dims, tp.DataType)
+				} else if oo.Kind != mon.Error {
+					c.Violation("decode:accepted-invalid", "[external data, no inline payload] a tensor of %d elements was loaded from a message that holds none | dims %v type %d", need, tp.Dims, tp.DataType)
+				}
+			}
 		}
 	}
 	if c.Idx%12000 == 31 {
